@@ -1,5 +1,26 @@
 ENTRY = dict(
-    runner="C09", pkg="./cmd/c09", corr=["Corr.C09Corr"], n=dict(quick=300, thorough=20000),
-    rule="placeholder",
-    trusted_base=[], assumes=[],
+    runner="C09", pkg="./cmd/c09", corr=["Corr.C09Corr"], n=dict(quick=200, thorough=20000), runner_timeout=3000,
+    rule="n random 32-byte seeds (plus a fixed 2-seed corpus holding the two F-09 witnesses) x {DefaultWeights (id.Weights nil, "
+         "every 7th an explicit copy), all-0, all-1, random weights (uniform in [-0.2,1.2], {0,1}, and float64 boundary values "
+         "incl. NaN/+-Inf/1e308)} with the variant rotating over Randomized/-ALPN/-NoALPN, 4 server names, 6 NextProtos settings; "
+         "4 non-randomized ids (error path); the cipherSuites/defaultCipherSuitesTLS13 tables, the constants and DefaultWeights "
+         "as drift cases; n/4 direct calls of removeRandomCiphers/removeRC4Ciphers (random lists, boundary weights) and n/16 of "
+         "shuffledCiphers. generateRandomizedSpec is called twice per input (determinism oracle); the SHAKE256 stream and the "
+         "HKDF-salted ALPS stream are recomputed with x/crypto and the model must reproduce the spec exactly (suites, extension "
+         "order, every parameter). Distinct by (id, seed, weights, serverName, NextProtos); non-trivial when a spec was produced "
+         "(helpers: list longer than 1).",
+    trusted_base=["hooks/verif_c09.go accessors (generateRandomizedSpec, cipherSuites rows, helper wrappers)",
+                  "x/crypto sha3 + hkdf (stream recomputation in the runner)",
+                  "IEEE-754 float64 laws as premises of the weight theorems (monotone rounding; 0, 1, 2^63, 2^-63 exact); executable rne "
+                  "(Model/Prng.v) validated against Go on every case, overflow to +-Inf modelled explicitly",
+                  "rendering of ClientHelloSpec extensions into the abstract spec (runner observe())"],
+    assumes=["streams long enough / rejection loops end within the fuel (16 redraws): model returns Err 99 otherwise, theorems are about Ok results",
+             "sort.Sort modelled as insertion sort on Less: the random tags are a permutation, so the order is total and the result unique "
+             "(not proved; the sorted output is compared with the code's on every case)",
+             "weight-1 statements exclude streams with an all-zero 63-bit draw (nz), probability 2^-63 per draw",
+             "Seed == nil (fresh crypto/rand seed) is outside the property; Weights == nil is DefaultWeights (checked)"],
+    level_text="Proof for every byte stream (superset of all seeds), every weights vector and every suite table: suite order, TLS 1.3 rules, "
+               "ALPS=>ALPN, first suite kept, weight-0/weight-1 corners for version/ALPN/padding/status/SCT/reneg/EMS/ALPS/cipher removal "
+               "(partial: sigalg and curve coins only observed), key-share consistency refuted with real-seed witnesses and proved "
+               "under the weight conditions that pin one of the two independent coins; determinism = purity + observed twice per input.",
 )
